@@ -112,6 +112,16 @@ add('C16', "spec/LeftRec.tla evaluates PegGrammar's left-call relation (Nullable
     "Trusted: TLC, projections. Grammars with a nullable rule call in a prefix (the property's proviso) are checked dynamically only.",
     "TLA+ spec LeftRec/PegGrammar (static relation, exhaustive rule graphs) evaluated by TLC + replay of verdicts, marks and input battery", "5 C16, 3.7")
 
+add('C10', "spec/ApiHistory.tla models the compile cache, the shared grammar objects and the handles callers keep; TLC proves HistoryIndependent and "
+    "ModelStable for the required design over all histories up to MaxCalls of the call pool (compile / tatsu.parse / to_python_sourcecode / "
+    "model.parse on earlier handles, valid and failing) and refutes them for the former design (kept as configuration AsIs = TRUE to document KF-C10-1). "
+    "The state graph is covered edge by edge with histories, each replayed in its own interpreter; every response is compared with the same call "
+    "executed alone in a fresh interpreter. Generated parser objects are driven through every ordered pair of per-call settings; 4-8 threads parse "
+    "on one shared model under a 1 microsecond switch interval.",
+    "Trusted: TLC; the fingerprint/abstraction of responses in harness/apireplay.py. Free-running threads are exploration (no forced interleavings yet). "
+    "Compile-time settings are excluded from the pool (C09 / KF-C09-1).",
+    "TLA+ spec ApiHistory model-checked by TLC (two designs) + state-graph histories replayed against fresh-interpreter responses", "5 C10, 3.7")
+
 import sys
 checks = [C[p] for p in props if p in C]
 na = [{"property_id": p, "reason": "check not built yet in this round (build in progress; DESIGN.md section 10 gives the order)"} for p in props if p not in C]
